@@ -38,22 +38,11 @@ def run(tier, seed):
     g = gen.Gen(seed * 7919 + 15)
     rng = random.Random(seed * 31 + 15)
     progs = []
-    while len(progs) < n:
-        directed_cum = len(progs) % 5 == 2
+    n_reb = max(10, n // 9)      # (appended after the first n programs: their random stream is as before)
+    while len(progs) < n + n_reb:
+        directed_cum = len(progs) % 5 == 2 and len(progs) < n
         directed_reb = False
-        if directed_cum:
-            # a span that starts before time 0 and a cumulative output counted from time 0; no explicit time dependence
-            p = g.program({"requests": True, "state_rates": False, "nsteps": g.rng.choice([3, 4]), "no_time": True,
-                           "nstrat": g.rng.choice([0, 1, 2]), "p_post": 0.0, "h": g.rng.choice(["1/2", "1"]), "t0": g.rng.choice(["-1", "-2"])})
-            srcs_ = [o["name"] for o in p["ops"] if o["op"] == "req" and o["req"]["type"] in ("flow", "comp")]
-            if srcs_ and not any(o["op"] == "whitelist" for o in p["ops"]):
-                p["ops"].append({"op": "req", "name": "c0", "save": True, "req": {"type": "cum", "source": srcs_[0], "start": "0"}})
-        elif len(progs) % 6 == 1:
-            # two infectious compartments with their own infectiousness adjustments, listed in another order than the
-            # compartments: reordering the compartments must still only permute the results
-            p = g.program({"requests": False, "state_rates": False, "nsteps": 2, "nonlinear": True, "two_inf": True, "p_iadj": 1.0,
-                           "nstrat": g.rng.choice([1, 2]), "p_post": 0.0, "p_full": 1.0, "min_strata": 2, "h": g.rng.choice(["1/4", "1/2"])})
-        elif len(progs) % 7 == 4:
+        if len(progs) >= n:
             # the population is redistributed (adjust_population_split) over a stratification that is not the last one
             # applied: independent stratifications still commute, presentation still does not matter
             p = g.program({"requests": g.rng.random() < 0.4, "state_rates": False, "nsteps": 2, "nstrat": g.rng.choice([2, 2, 3]),
@@ -75,6 +64,18 @@ def run(tier, seed):
             at_ = max(i for i, o in enumerate(p["ops"]) if o["op"] == "strat") + 1
             p["ops"].insert(at_, {"op": "rebalance", "strat": tgt_["name"], "filt": filt_, "props": dict(items_)})
             directed_reb = True
+        elif directed_cum:
+            # a span that starts before time 0 and a cumulative output counted from time 0; no explicit time dependence
+            p = g.program({"requests": True, "state_rates": False, "nsteps": g.rng.choice([3, 4]), "no_time": True,
+                           "nstrat": g.rng.choice([0, 1, 2]), "p_post": 0.0, "h": g.rng.choice(["1/2", "1"]), "t0": g.rng.choice(["-1", "-2"])})
+            srcs_ = [o["name"] for o in p["ops"] if o["op"] == "req" and o["req"]["type"] in ("flow", "comp")]
+            if srcs_ and not any(o["op"] == "whitelist" for o in p["ops"]):
+                p["ops"].append({"op": "req", "name": "c0", "save": True, "req": {"type": "cum", "source": srcs_[0], "start": "0"}})
+        elif len(progs) % 6 == 1:
+            # two infectious compartments with their own infectiousness adjustments, listed in another order than the
+            # compartments: reordering the compartments must still only permute the results
+            p = g.program({"requests": False, "state_rates": False, "nsteps": 2, "nonlinear": True, "two_inf": True, "p_iadj": 1.0,
+                           "nstrat": g.rng.choice([1, 2]), "p_post": 0.0, "p_full": 1.0, "min_strata": 2, "h": g.rng.choice(["1/4", "1/2"])})
         elif len(progs) % 4 == 3:
             # several stratifications with mixing matrices (of different sizes): category order vs Kronecker order
             p = g.program({"requests": False, "state_rates": False, "nsteps": 2, "nonlinear": True, "p_mix": 1.0,
